@@ -80,7 +80,7 @@ func build(cli bool) *builder {
 	if cli {
 		args = append(args, "-cli")
 	}
-	out, err := run(sim, nil, filepath.Join(scratch, "instr"), args...)
+	out, err := run(sim, []string{"VERIF_GOBIN=" + goBin}, filepath.Join(scratch, "instr"), args...)
 	if err != nil {
 		die(2, "instrumenter failed (does /repo parse?): %v\n%s", err, out)
 	}
